@@ -1037,6 +1037,11 @@ class Interp:
             return True
         return a == b
 
+    def ev_NamedExpr(self, e, env):
+        v = self.ev(e.value, env)
+        self.bind(e.target, v, env)
+        return v
+
     def ev_IfExp(self, e, env):
         t = self.ev(e.test, env)
         if isinstance(t, Pred) and t.kind not in ('true', 'false'):
